@@ -246,6 +246,11 @@ def history(ctx, acc, n):
             alg = ("es-256", "eddsa")[i % 2]
             out = os.path.join(d, f"o{i}.suit")
             if step == "sign":
+                if i % 7 == 3:
+                    # key rotation: the key file of that name now holds another key - the key that is in the file signs
+                    keys[alg] = CO.gen_key(alg)
+                    CO.write_key(keys[alg], kd, alg, "pem")
+                    acc.note("history:key-file-replaced")
                 sut.sign_single(unsigned, out, alg, 100 + i, alg, kd)
                 with open(out, "rb") as fh:
                     problems, _ = check_signed(data, fh.read(), alg, 100 + i, keys[alg].public_key())
@@ -345,7 +350,7 @@ def replay(ctx, check, case):
 
 def finalize(ctx, m, ev):
     c = m["counters"]
-    need = [f"alg:{a}" for a in CO.ALGS] + ["enc:der", "ctx:json", "route:cli", "rich-envelope", "storm-leading-zero", "kid:b0", "kid:b4294967295", "history", "earlier-longer-file-at-output-path"]
+    need = [f"alg:{a}" for a in CO.ALGS] + ["enc:der", "ctx:json", "route:cli", "rich-envelope", "storm-leading-zero", "kid:b0", "kid:b4294967295", "history", "history:key-file-replaced", "earlier-longer-file-at-output-path"]
     for n in need:
         if not c.get(n):
             raise boot.HarnessError(f"interesting class {n} is empty")
